@@ -155,8 +155,17 @@ def gen_spec(rng, max_image=2000, marker=None, p_unknown=0.0):
             sec["select_if"] = "*"
         seen_sel = seen_sel or bool(sec["select"])
         seen_if = seen_if or bool(sec["select_if"])
+    last = secs[-1]
+    if rng.random() < 0.12 and TAGTYPES.get(last["tt"]) is not None and not last["reboot"] and not is_unknown(last["tt"]):
+        # a second section of the same tag type right behind the last one, without instruction lines of its own:
+        # only the load markers separate the two; the instructions in force (filter, interface, firmware header)
+        # apply to it, the version description and checksum of the section before it do not
+        twin = dict(last, image=dict(last["image"], s=rng.getrandbits(32), len=rng.randint(1, max(1, min(max_image, 300)))),
+                    fwver=None, crc=None, reboot=False, twin=True, groups="one")
+        twin.pop("fw", None)
+        secs.append(twin)
     return {"fw": fw, "creator": rng.choice([None, "ConfigEditor 1.2", "x"]),
-            "marker": "Yes" if marker else None, "crlf": rng.random() < 0.3,
+            "marker": rng.choice(["Yes", "Yes", "Yes", "1", "0", "no", ""]) if marker else None, "crlf": rng.random() < 0.3,
             "sections": secs}
 
 
@@ -220,8 +229,10 @@ def render_items(spec):
                                                               spec["fw"]["ver"]), None))
     if spec["creator"]:
         items.append(("hdr", None, "##Creator: " + spec["creator"], None))
-    if spec["marker"]:
-        items.append(("hdr", None, "##Bf3Update: " + spec["marker"], None))
+    if spec["marker"] is not None:
+        # the marker counts by being there, whatever its value (an empty value included)
+        items.append(("hdr", None, ("##Bf3Update: " + spec["marker"]).rstrip(" ") if spec["marker"] == ""
+                      else "##Bf3Update: " + spec["marker"], None))
     for si, sec in enumerate(spec["sections"]):
         desc = sec["fwver"]
         if desc is None or desc == "*":
@@ -229,13 +240,14 @@ def render_items(spec):
         else:
             v = bytes.fromhex(desc)
             vd = _hexstyle(b"\x01\x00" + bytes([len(v)]) + v, sec.get("hexstyle", 0))
-        items.append(("instr", si, "#>CHECK_FWVER VERSIONDESC=" + vd, None))
+        if not sec.get("twin"):
+            items.append(("instr", si, "#>CHECK_FWVER VERSIONDESC=" + vd, None))
         if sec.get("fw"):
             items.append(("instr", si, "##Firmware: %04d %s %s" % (sec["fw"]["id"], sec["fw"].get("name", "BALTECHFW"),
                                                                   sec["fw"]["ver"]), None))
-        if sec["select"]:
+        if sec["select"] and not sec.get("twin"):
             items.append(("instr", si, "#>SELECT FILTER=" + _hexstyle(bytes.fromhex(sec["select"]), sec.get("hexstyle", 0)), None))
-        if sec["select_if"]:
+        if sec["select_if"] and not sec.get("twin"):
             items.append(("instr", si, "#>SELECT_IF PROTOCOL=" + sec["select_if"], None))
         lines = section_lines(sec)
         groups = [lines]
@@ -295,6 +307,9 @@ def truth(spec):
         if info is None:
             continue
         ctype, hw, fmt, intf = info
+        if sec.get("twin") and si > 0:
+            # no instruction lines of its own: filter and interface of the section before it stay in force
+            sec = dict(sec, select=spec["sections"][si - 1]["select"], select_if=spec["sections"][si - 1]["select_if"])
         tags = {T_FMT: bytes([fmt]), T_TYPE: bytes([ctype])}
         if hw is not None:
             tags[T_HWCID] = hw.to_bytes(2, "big")
@@ -345,6 +360,11 @@ def spec_shrinks(spec):
     secs = spec["sections"]
     for i in range(len(secs)):
         if len(secs) > 1:
+            if i + 1 < len(secs) and secs[i + 1].get("twin"):
+                # a section and the instruction-less section behind it go together
+                if len(secs) > 2:
+                    yield dict(spec, sections=secs[:i] + secs[i + 2:])
+                continue
             yield dict(spec, sections=secs[:i] + secs[i + 1:])
     for k in ("fw", "creator"):
         if spec[k]:
